@@ -627,8 +627,8 @@ class LLMRails:
                 options = GenerationOptions()
             options.output_vars = True
 
-        if streaming_handler:
-            streaming_handler_var.set(streaming_handler)
+        # (always set, a handler left by an earlier call in the same task must not be used)
+        streaming_handler_var.set(streaming_handler)
 
         # Initialize the object with additional explanation information.
         # We allow this to also be set externally. This is useful when multiple parallel
@@ -1015,6 +1015,7 @@ class LLMRails:
         # the ones of a previous call must not be used
         raw_llm_request.set(None)
         generation_options_var.set(None)
+        streaming_handler_var.set(None)
 
         # Initialize the LLM stats
         llm_stats = LLMStats()
@@ -1077,6 +1078,7 @@ class LLMRails:
         # the ones of a previous call must not be used
         raw_llm_request.set(None)
         generation_options_var.set(None)
+        streaming_handler_var.set(None)
 
         llm_stats = LLMStats()
         llm_stats_var.set(llm_stats)
